@@ -88,6 +88,18 @@ def main():
             R.inconc("worker %s: %s" % (job["seed"], err))
             continue
         R.merge(res)
+    # comparisons with operand classes the library was not written for (floats, Fraction, Decimal, True / False): where the operator
+    # accepts one, the outcome it hands back - possibly a plain constant with no constraint at all - must be the honest one
+    fam = [dict(seed="%d/C02/foreign/%d" % (common.seed(), s), props=["C05"], n=3000, only_ops=["==", "!=", "<", "<=", ">", ">="]) for s in range(4 if tier == "quick" else 16)]
+    for job, res, err in shard.run_jobs("vf.progwork", "foreign_operands", fam, timeout=1800):
+        if err:
+            R.inconc("foreign-operand comparisons: %s" % err[-300:])
+            continue
+        part = res["C05"]
+        for v in part["violations"]:
+            v["mech"] = v["mech"].replace("value-differs:foreign-operand", "comparison-outcome-differs:foreign-operand")
+        part["counters"] = {("foreign_comparison_" + k if k == "values_compared" else k): n for k, n in part["counters"].items()}
+        R.merge(part)
     R.assumptions = ["solver completeness is validated by its self-test (synthetic systems + brute force on small primes) at the start of every worker",
                      "every reported extra/free solution is certified by concrete re-evaluation with vf.r1cs",
                      "bitlength <= 5 (6 thorough): the gadgets are the same code for every width"]
